@@ -16,7 +16,7 @@ View == <<i>>
 
 TInit == /\ Init /\ i = 0
          /\ tr = ndJsonDeserialize(IOEnv.VERIF_TRACE_FILE)
-         /\ cnt = [decl |-> 0, conv |-> 0, convJudged |-> 0, convFail |-> 0, arith |-> 0, arithValue |-> 0, cmp |-> 0, cmpJudged |-> 0]
+         /\ cnt = [decl |-> 0, conv |-> 0, convJudged |-> 0, convFail |-> 0, arith |-> 0, arithValue |-> 0, cmp |-> 0, cmpJudged |-> 0, cmpReverse |-> 0, cmpHash |-> 0]
 E == tr[i + 1]
 Expect == IF E.e = "conv" /\ E.out = "ok" /\ JudgedC(E) THEN NetExpected(E.a, E.b, size) ELSE 0
 Rep(S) == \A c \in S : PrintT("@@BAD " \o ToJson([i |-> i + 1, clause |-> c, id |-> E.id, expected |-> Expect]))
@@ -37,7 +37,11 @@ TNext ==
                THEN Bump("arith", "arithValue") ELSE Bump1("arith")
        [] E.e = "cmp" ->
             /\ Rep(CmpBad(E)) /\ UNCHANGED lvars
-            /\ IF DPad(E.l.u.d) = DPad(E.r.u.d) /\ Order(E.l, E.r) # 0 THEN Bump("cmp", "cmpJudged") ELSE Bump1("cmp")
+            /\ LET j == DPad(E.l.u.d) = DPad(E.r.u.d) /\ Order(E.l, E.r) # 0
+                   rj == j /\ E.rev \in {"T", "F"}                                      \* the reverse answer is judged too
+                   hj == E.op = "eq" /\ E.out = "T" /\ E.hq \in {"T", "F"} /\ E.l.u.k = E.r.u.k   \* equal in one unit: hashes judged
+               IN cnt' = [cnt EXCEPT !["cmp"] = @ + 1, !["cmpJudged"] = @ + (IF j THEN 1 ELSE 0),
+                                     !["cmpReverse"] = @ + (IF rj THEN 1 ELSE 0), !["cmpHash"] = @ + (IF hj THEN 1 ELSE 0)]
        [] OTHER -> UNCHANGED lvars /\ UNCHANGED cnt
 Done == i = Len(tr)
 ReportDone == Done => PrintT("@@DONE " \o ToJson([events |-> i, cnt |-> cnt, sized |-> Cardinality(DOMAIN size),
